@@ -37,6 +37,7 @@ type c20File struct {
 	name string
 	data []byte
 	mode uint32
+	link string // non-empty: the name is a symbolic link to this file of the same directory (which holds data / mode)
 }
 
 // ---- the directory of one chroot ----
@@ -54,6 +55,13 @@ func c20Reset(root string, init []c20File) error {
 	}
 	for _, f := range init {
 		p := filepath.Join(etc, f.name)
+		if f.link != "" {
+			// what a reader sees through the link is the target (already written: it is listed before the link)
+			if err := os.Symlink(f.link, p); err != nil {
+				return err
+			}
+			continue
+		}
 		if err := os.WriteFile(p, f.data, 0o600); err != nil {
 			return err
 		}
@@ -826,6 +834,12 @@ func TestC20(t *testing.T) {
 		}
 		var ik string
 		cc.init, ik = c20Init(r, r.Intn(3))
+		if k%4 == 1 {
+			// resolv.conf is a symbolic link (to a file some other program maintains): the update replaces the link itself, in one
+			// step, like a regular file - a reader sees the old content through the link or the new file, never nothing
+			old := c20File{name: "resolv.conf.real", data: []byte("# old, elsewhere\nnameserver 9.9.9.9\n"), mode: 0o644}
+			cc.init, ik = []c20File{old, {name: "resolv.conf", data: old.data, mode: old.mode, link: old.name}}, "symlink"
+		}
 		ccs = append(ccs, cc)
 		kind := fmt.Sprintf("concurrent-%d", nw)
 		if cc.kill {
